@@ -56,6 +56,9 @@ const (
 	// the producer has a step-level retryPolicy: its first attempt prints something else and fails,
 	// the second prints the payload; the consumers must see the last attempt's output only
 	shapeStepRetry = "step-retry"
+	// as fail-once+retry, but the failing consumer fails twice: the first retry leaves the run unfinished
+	// again, and a retry OF THAT RETRY must still hand the producer's recorded output on
+	shapeFail2 = "fail-twice+retry-of-retry"
 )
 
 func enumOutputs(thorough bool) []omember {
@@ -85,6 +88,10 @@ func enumOutputs(thorough bool) []omember {
 	}
 	for _, p := range literalPayloads {
 		out = append(out, omember{Payload: p.name, Shape: shapeStepRetry})
+		out = append(out, omember{Payload: p.name, Shape: shapeFail2})
+	}
+	for _, n := range []int{1, 2, 4096} {
+		out = append(out, omember{Payload: "pattern", Len: n, Shape: shapeFail2})
 	}
 	for _, n := range []int{1, 4096, 65535} {
 		if n == 65535 && !thorough {
@@ -147,12 +154,16 @@ func (h *harness) outputYAML(file, tag string, m omember, payloadFile, pids stri
 		fmt.Fprintf(&sb, "  - name: prod\n    command: sh %s %s %s\n    output: OUT\n", filepath.Join(w, "prod.sh"), payloadFile, pids)
 	}
 	fmt.Fprintf(&sb, "  - name: adj\n    command: %s\n    depends:\n      - prod\n", cons("adj", "-"))
-	if m.Shape == shapeFail {
+	if m.Shape == shapeFail || m.Shape == shapeFail2 {
 		fmt.Fprintf(&sb, "  - name: far\n    command: %s\n    depends:\n      - adj\n", cons("far", "-"))
 		// a step that does not depend on the producer but starts after the producer finished
 		fmt.Fprintf(&sb, "  - name: gate\n    command: sh %s %s %s\n", filepath.Join(w, "gate.sh"), probe("adj")+".set", pids)
 		fmt.Fprintf(&sb, "  - name: par\n    command: %s\n    depends:\n      - gate\n", cons("par", "-"))
-		fmt.Fprintf(&sb, "  - name: again\n    command: %s\n    depends:\n      - far\n", cons("again", probe("marker")))
+		mk := probe("marker")
+		if m.Shape == shapeFail2 {
+			mk = "2:" + mk // dumpout.sh: fail until the marker file has two lines
+		}
+		fmt.Fprintf(&sb, "  - name: again\n    command: %s\n    depends:\n      - far\n", cons("again", mk))
 	}
 	fmt.Fprintf(&sb, "handlerOn:\n")
 	fmt.Fprintf(&sb, "  success:\n    command: %s\n", cons("success", "-"))
@@ -302,5 +313,26 @@ func (h *harness) runOutput(m omember) {
 			fmt.Sprintf("%s: `retry` did not end within %s", m, watchdog), rp)
 		return
 	}
-	check("retry", map[string]string{"again": "retry/step", "success": "retry/on-success", "exit": "retry/on-exit"}, []string{"again", "success", "exit"})
+	if m.Shape != shapeFail2 {
+		check("retry", map[string]string{"again": "retry/step", "success": "retry/on-success", "exit": "retry/on-exit"}, []string{"again", "success", "exit"})
+		return
+	}
+	// first retry: `again` fails once more
+	check("retry", map[string]string{"again": "retry/step", "failure": "retry/on-failure", "exit": "retry/on-exit"}, []string{"again", "failure", "exit"})
+	reqID2 := ""
+	if sf := h.env.Stores().HistoryStore().ReadStatusRecent(file, 1); len(sf) == 1 {
+		reqID2 = sf[0].Status.RequestID
+	}
+	clearParamEnv()
+	if reqID2 == "" || reqID2 == reqID {
+		h.violate("C11/output/retry-of-retry-impossible/"+m.class(), fmt.Sprintf("%s: the first retry left no new readable status record (latest request id %q, original %q; %s)", m, reqID2, reqID, strings.TrimSpace(r.out)), rp)
+		return
+	}
+	r = h.runBin(pids, "retry", "--req="+reqID2, file)
+	res.Count("output_binary_runs", 1)
+	if r.hung {
+		h.violate(fmt.Sprintf("C11/output/hang(%s)", m.sizeClass()), fmt.Sprintf("%s: the retry of the retry did not end within %s", m, watchdog), rp)
+		return
+	}
+	check("retry of the retry", map[string]string{"again": "retry-of-retry/step", "success": "retry-of-retry/on-success", "exit": "retry-of-retry/on-exit"}, []string{"again", "success", "exit"})
 }
